@@ -181,6 +181,7 @@ pub fn test_prog_cap(c: &ProgCapCase) -> Verdict {
     let r = guard(|| clvmr::run_program::run_program(&mut a, &d, p, e, budget));
     d.sample(&a);
     let roomy = to_out(&a, &mut i, r);
+    let roomy_counts = crate::util::counts(&a);
     if let Out::Panic(m) = &roomy {
         return Verdict::fail(format!("run_program panicked: {m}\n {}", crate::checks::progcase::show_case(pc)));
     }
@@ -203,6 +204,7 @@ pub fn test_prog_cap(c: &ProgCapCase) -> Verdict {
     let r = guard(|| clvmr::run_program::run_program(&mut a, &d, p, e, budget));
     d.sample(&a);
     let capped = to_out(&a, &mut i, r);
+    let capped_counts = crate::util::counts(&a);
     let seen = d.peak.get();
     let ctx = || format!("caps: atoms {MAX_ATOMS} pairs {MAX_PAIRS} heap {limit}; room left for (atoms, pairs) = ({room_atoms}, {room_pairs}); unconstrained peaks (atoms,pairs,heap) = {peak:?}\n {}", crate::checks::progcase::show_case(pc));
     if let Out::Panic(m) = &capped {
@@ -226,6 +228,19 @@ pub fn test_prog_cap(c: &ProgCapCase) -> Verdict {
     // caps that are not hit are unobservable
     if !cap_err && capped != roomy {
         return Verdict::fail(format!("no cap was hit, yet the outcome differs from the unconstrained run: capped {} unconstrained {}\n {}", capped.show(&i), roomy.show(&i), ctx()));
+    }
+    // ... including in the accounting itself: the counts reported afterwards are those of the unconstrained
+    // (non-collecting) run plus the pre-loaded ghosts
+    if !cap_err && capped.is_ok() {
+        let pre_atoms = (MAX_ATOMS - room_atoms) as usize;
+        let pre_pairs = (MAX_PAIRS - room_pairs) as usize;
+        let expect = (roomy_counts.0 + pre_atoms, roomy_counts.1 + pre_pairs, roomy_counts.2);
+        if capped_counts != expect && d.f5_bytes.get() == 0 {
+            return Verdict::fail(format!(
+                "no cap was hit, yet the counts reported after the run (atoms,pairs,heap) = {capped_counts:?} differ from those of the unconstrained run plus the pre-load {expect:?}\n {}",
+                ctx()
+            ));
+        }
     }
     let at_cap = seen.0 as u64 == MAX_ATOMS || seen.1 as u64 == MAX_PAIRS || seen.2 == limit;
     let mut v = Verdict::pass(cap_err || at_cap);
